@@ -24,6 +24,19 @@ on Model/CubeCounts.v + Proofs/CubeCounts*.v).
                Cube (nub -> one-row strand, strand -> one-row slice);
       augment  is_single_col_cube filter cube with dropped zero-count elements == the
                full-shape cube of the filtered survey.
+      shared   (after seeded change C06-11: CubeSet.partition_sets cached the partitions by
+               id(response), "partition each distinct response only once", so the second position of
+               a repeated response got the partitions - transforms, cube_index, CA-as-0th decision -
+               of the first.)  Multi-cube sets in which ONE response OBJECT (the very same dict, not
+               a copy: a tabbook repeats a column variable once per banner) is passed at two
+               positions, with DIFFERENT per-cube transforms (column subtotal / hidden column /
+               explicit or label order on one of them) or with EQUAL ones: tabbooks with a repeated
+               column cube or a repeated summary cube, CA-as-0th sets with a repeated column cube or
+               the array response itself repeated, stacks with a repeated 3-D cube.  Oracle as for
+               `tabbook`, with the transforms of position j: partition_sets[k][j] ==
+               Cube(resp_j, cube_idx=j, transforms=t_j, ...).partitions[k], every public attribute
+               (incl. cube_index).  `cube_set` deep-copies every response, so this section builds
+               the set with `cube_set_shared` (one object per distinct response).
     Attributes excluded from a comparison are listed in SKIP_* below with the reason and are
     recorded in the evidence.
 
@@ -211,6 +224,84 @@ def gen_ca0(rng, k):
                        meas=u.pick_measures(rng, False), mask_size=rng.choice([0, 3]), n=n)
 
 
+def dim_transform(rng, v, kind=None):
+    """a display / insertion transform of the dimension of variable `v`: column subtotal, hidden element,
+    explicit order (categorical, >= 2 valid categories) or label order (any kind)"""
+    ids = [c["id"] for c in (v.cats or []) if not c["missing"]] if v.kind in ("cat", "ca") else []
+    kind = kind or (rng.choice(["subtotal", "hide", "explicit", "label"]) if len(ids) >= 2 else "label")
+    if kind == "subtotal":
+        return {"insertions": [{"function": "subtotal", "name": "sub %s" % v.alias, "args": ids[:2],
+                                "anchor": rng.choice(["top", "bottom", ids[0]])}]}
+    if kind == "hide":
+        return {"elements": {str(rng.choice(ids)): {"hide": True}}}
+    if kind == "explicit":
+        return {"order": {"type": "explicit", "element_ids": list(reversed(ids))}}
+    return {"order": {"type": "label", "direction": "descending"}}
+
+
+def gen_shared(rng, k):
+    """a multi-cube set in which one response OBJECT sits at two positions (see module docstring)"""
+    n = rng.choice([2, 3, 3])
+    mode = ["tabbook_dup", "summary_dup", "ca0_dup", "ca_lead_dup", "stack_dup", "tabbook_dup"][k % 6]
+    if mode in ("tabbook_dup", "summary_dup"):
+        rowv = make_var(rng, "v0", rng.choice(["cat", "mr", "cat", "text"]), n)
+        cols = [make_var(rng, "v%d" % (j + 1), rng.choice(["cat", "cat", "mr"]), n)
+                for j in range(rng.randint(1, 2))]
+        vs = [rowv] + cols
+        cubes = [["v0"]] + [["v0", c.alias] for c in cols]
+        dup = 0 if mode == "summary_dup" else rng.randrange(1, len(cubes))
+    elif mode in ("ca0_dup", "ca_lead_dup"):
+        ca = make_var(rng, "v0", "ca", n)
+        cols = [make_var(rng, "v%d" % (j + 1), rng.choice(["cat", "mr", "cat"]), n)
+                for j in range(rng.randint(1, 2))]
+        vs = [ca] + cols
+        cubes = [["v0"]] + [["v0", c.alias] for c in cols]
+        dup = 0 if mode == "ca_lead_dup" else rng.randrange(1, len(cubes))
+    else:
+        tv = make_var(rng, "v0", rng.choice(["cat", "mr"]), n)
+        rowv = make_var(rng, "v1", rng.choice(["cat", "mr"]), n)
+        cols = [make_var(rng, "v%d" % (j + 2), rng.choice(["cat", "cat", "mr"]), n)
+                for j in range(rng.randint(1, 2))]
+        vs = [tv, rowv] + cols
+        cubes = [["v0", "v1", c.alias] for c in cols]
+        dup = rng.randrange(len(cubes))
+    sv = gen.Survey(vs, rng.choice([5, 15, 30]), rng)
+    # positions: the distinct cubes in order, the repeated one inserted again at a later position
+    share = list(range(len(cubes)))
+    second = rng.randint(dup + 1, len(share))
+    share.insert(second, dup)
+    by_alias = {v.alias: v for v in vs}
+
+    def a_transform(slot, kind=None):
+        al = cubes[slot]
+        v = by_alias[al[-1]]
+        ndim = sum(2 if by_alias[a].kind == "ca" else 1 for a in al)
+        key = "columns_dimension" if ndim >= 2 else "rows_dimension"
+        return {key: dim_transform(rng, v, kind)}
+
+    relation = "equal" if (k % 6 + k // 6) % 3 == 2 else "different"
+    transforms = [a_transform(s) if rng.random() < 0.3 else {} for s in share]
+    first = share.index(dup)
+    if relation == "equal":
+        transforms[first] = a_transform(dup) if rng.random() < 0.6 else {}
+        transforms[second] = copy.deepcopy(transforms[first])
+    else:
+        t = a_transform(dup)
+        r = rng.random()
+        if r < 0.4:
+            transforms[first], transforms[second] = {}, t
+        elif r < 0.7:
+            transforms[first], transforms[second] = t, {}
+        else:
+            t2 = a_transform(dup)
+            if t2 == t:
+                t2 = {}
+            transforms[first], transforms[second] = t, t2
+    return survey_case("shared", k, sv, cubes=[cubes[s] for s in share], share=share, mode=mode,
+                       relation=relation, transforms=transforms,
+                       meas=u.pick_measures(rng, False), mask_size=rng.choice([0, 3]))
+
+
 def gen_numeric(rng, k):
     n = 3
     cols = [make_var(rng, "v%d" % (j + 1), rng.choice(["cat", "mr", "cat", "cat_date"]), n)
@@ -266,6 +357,18 @@ def lone(resp, cube_idx=None, mask_size=0, transforms=None):
 def cube_set(resps, mask_size=0, transforms=None):
     return impl.CubeSet([copy.deepcopy(r) for r in resps],
                         [copy.deepcopy(transforms) if transforms else {} for _ in resps], POP, mask_size)
+
+
+def cube_set_shared(resps, share, transforms, mask_size=0):
+    """CubeSet in which positions with the same `share` slot receive the SAME response object (one private
+    deep copy per distinct slot, so that nothing the set does to it reaches the stand-alone analyses); every
+    position has its own transforms dict"""
+    objs = {}
+    for r, s in zip(resps, share):
+        if s not in objs:
+            objs[s] = copy.deepcopy(r)
+    return impl.CubeSet([objs[s] for s in share], [copy.deepcopy(t or {}) for t in transforms], POP,
+                        mask_size)
 
 
 def augment_row_transforms(case, summary):
@@ -404,6 +507,48 @@ def check_tabbook(case, stats=None):
             for f in fs:
                 f["part"], f["cube"] = k, j
             fails.extend(fs)
+    return fails
+
+
+# --- one response object at two positions of a set -----------------------------------------------
+
+def check_shared(case, stats=None):
+    sv = cu.survey_from_json(case["survey"])
+    share, tfs, ms = case["share"], case["transforms"], case["mask_size"]
+    by_slot = {}
+    for al, s in zip(case["cubes"], share):
+        if s not in by_slot:
+            by_slot[s] = u.response(sv, al, case["meas"])
+    resps = [by_slot[s] for s in share]
+    # the stand-alone analyses first, on deep copies (impl.cube) of the pristine responses
+    lones = []
+    for j, r in enumerate(resps):
+        q = impl.guarded(lambda: lone(r, cube_idx=j, transforms=tfs[j] or {}, mask_size=ms).partitions)
+        if q[0] != "ok":
+            return [fail("exception", where="lone cube %d" % j, got=q[1:])]
+        lones.append(q[1])
+    res = impl.guarded(lambda: cube_set_shared(resps, share, tfs, ms).partition_sets)
+    if res[0] != "ok":
+        return [fail("exception", where="CubeSet.partition_sets (shared response object)", got=res[1:])]
+    psets = res[1]
+    fails = []
+    n_sets = min(len(x) for x in lones)
+    if len(psets) != n_sets:
+        fails.append(fail("n_partition_sets", got=len(psets), expected=n_sets))
+    for k, pset in enumerate(psets[:n_sets]):
+        if len(pset) != len(resps):
+            fails.append(fail("partition_set_size", part=k, got=len(pset), expected=len(resps)))
+            continue
+        for j, p in enumerate(pset):
+            fs = compare_parts(p, lones[j][k], (),
+                               "partition_sets[%d][%d] vs cube %d (its own transforms, cube_idx %d) partition "
+                               "%d; response object shared by positions %s"
+                               % (k, j, j, j, k, [i for i, s in enumerate(share) if s == share[j]]))
+            for f in fs:
+                f["part"], f["cube"] = k, j
+            fails.extend(fs)
+        if stats is not None:
+            stats["shared_partitions_compared"] = stats.get("shared_partitions_compared", 0) + len(pset)
     return fails
 
 
@@ -788,7 +933,7 @@ def check_set_model(case, toks):
 # ------------------------------------------------------------------------------------
 
 REL_CHECKS = {"rel": check_rel, "tabbook": check_tabbook, "ca0": check_ca0,
-              "numeric": check_numeric, "augment": check_augment}
+              "numeric": check_numeric, "augment": check_augment, "shared": check_shared}
 SET_SECTIONS = ("tabbook", "ca0", "numeric", "augment")
 
 
@@ -806,12 +951,13 @@ def run(tier, seed):
     quick = tier == "quick"
     counts = {"single": 150 if quick else 2500, "rel": 70 if quick else 1200,
               "tabbook": 24 if quick else 400, "ca0": 14 if quick else 250,
-              "numeric": 16 if quick else 250, "augment": 24 if quick else 400}
+              "numeric": 16 if quick else 250, "augment": 24 if quick else 400,
+              "shared": 24 if quick else 400}
     rng = random.Random(seed + 6)
     gens = {"single": gen_single, "rel": gen_rel, "tabbook": gen_tabbook, "ca0": gen_ca0,
-            "numeric": gen_numeric, "augment": gen_augment}
+            "numeric": gen_numeric, "augment": gen_augment, "shared": gen_shared}
     cases = [witness_augment_case()]
-    for sec in ("single", "rel", "tabbook", "ca0", "numeric", "augment"):
+    for sec in ("single", "rel", "tabbook", "ca0", "numeric", "augment", "shared"):
         for k in range(counts[sec]):
             cases.append(gens[sec](rng, k))
     # --- model terms
@@ -842,6 +988,12 @@ def run(tier, seed):
         rep.dist("%s:%s" % (sec, case.get("layout") or case.get("mode") or ""))
         if sec == "augment":
             rep.dist("augment:weighted" if case["survey"]["weighted"] else "augment:unweighted")
+        if sec == "shared":
+            rep.dist("shared:same response object at two positions, %s transforms" % case["relation"])
+            sl = [s2 for s2 in case["share"] if case["share"].count(s2) > 1][0]
+            for t in [t for t, s2 in zip(case["transforms"], case["share"]) if s2 == sl]:
+                rep.dist("shared:transform of a repeated position=" + ("+".join(sorted(
+                    k2 for d in t.values() for k2 in d)) or "none"))
         if sec == "rel":
             tv = [v for v in case["survey"]["vars"] if v["alias"] == case["aliases"][0]][0]
             flags = [c["missing"] for c in tv.get("cats", [])]
@@ -872,6 +1024,9 @@ def run(tier, seed):
         "insertions; weighted (dyadic, zero) or not; 0..30 respondents. tabbook: 1-D + 2-D tabbooks, "
         "stacks of n square 3-D cubes with n tables (wrong transposition visible), unequal stacks "
         "(truncation = malformed stream). ca0 / numeric / augment as described in the module docstring. "
+        "shared: multi-cube sets (tabbook, CA-as-0th, 3-D stacks) in which one response OBJECT is passed at "
+        "two positions, two thirds with different per-cube transforms (subtotal / hide / explicit order / "
+        "label order on the last dimension), one third with equal ones; relational oracle only. "
         "non-trivial = at least one respondent; distinct by content hash")
     rep.cov["coq_eval_seconds"] = round(coq_s, 2)
     rep.cov["model_terms_evaluated"] = len(terms)
